@@ -126,6 +126,9 @@ class Check(BaseCheck):
             variants.append(("consistent flip", v, t[:, [0, 2, 1]], 1.0))
         s = float(rng.choice([0.25, 0.5, 2.0, 3.0, 4.0]))
         variants.append(("scaling by %g" % s, s * v, t, 1.0 / s ** 2))
+        if kind == "tet":        # the tetra kernel has no absolute degeneracy threshold: the law holds for very small / large meshes too
+            for s2 in (1e-5, 1e3):
+                variants.append(("scaling by %g" % s2, s2 * v, t, 1.0 / s2 ** 2))
         for name, vv, tt, fac in variants:
             try:
                 e2 = spec(vv, tt)
